@@ -692,4 +692,29 @@ def rule_16_11(rep, fx):
             rep.check(ok, 'R16.11', 'decode_rtps_message/%s/every-submessage-kept' % (b.key.rsplit('::', 1)[-1] if b is not dm else 'body'), 'Some(submessage) => push before the next read',
                       'decode_rtps_message can parse a submessage out of the decrypted content and not put it into the decoded message: the receiver decodes less than the sender encoded',
                       b.where(rb))
+            # the loop goes on until the content is used up: the edge that leaves it is "the remaining content is empty" (negations and `== false` read through)
+            blocks = inloop[0][1]
+            leave = []
+            for s_, t_, cond, lab in switch_edges(b, fx, og):
+                if s_ in blocks and t_ not in blocks and isinstance(lab, bool):
+                    leave.append((cond, lab))
+            okx = bool(leave)
+            for cond, lab in leave:
+                neg, c = False, cond
+                while True:
+                    if c[0] == 'un' and c[1] == 'Not':
+                        neg, c = not neg, c[2]
+                    elif c[0] == 'bin' and c[1] in ('Eq', 'Ne') and any(x[0] == 'const' for x in c[2:4]):
+                        k = [x for x in c[2:4] if x[0] == 'const'][0]
+                        other = [x for x in c[2:4] if x is not k][0]
+                        if (c[1] == 'Eq') != (str(k[2]) in ('1', 'true', 'True')):
+                            neg = not neg
+                        c = other
+                    else:
+                        break
+                if not (c[0] == 'call' and c[1].endswith('is_empty') and (lab != neg)):
+                    okx = False
+            rep.check(okx, 'R16.11', 'decode_rtps_message/%s/until-used-up' % (b.key.rsplit('::', 1)[-1] if b is not dm else 'body'), 'the parsing loop is left only when the remaining content is empty',
+                      'decode_rtps_message stops parsing the decrypted content before it is used up (the loop condition is not "content not empty"): a protected message is accepted '
+                      'with submessages missing', b.where(rb))
     rep.floor('R16.11', n, 1, 'submessage parsing loops in decode_rtps_message')
